@@ -8,7 +8,7 @@ MUTS = {
     # 1. swapped argument / extra call: the exclusion test now looks at the resolved path, so even `.` from inside a project
     #    that lives under build/ reports nothing
     "m1_exclusion_on_resolved_path": [("src/orchestrator/core.py",
-        "        if _is_hardcoded_excluded(file_path):\n            return []\n\n        if self.ignore_parser",
+        "        if _is_hardcoded_excluded(self._path_inside_project(file_path)):\n            return []\n\n        if self.ignore_parser",
         "        if _is_hardcoded_excluded(file_path.resolve()):\n            return []\n\n        if self.ignore_parser")],
     # 2. dropped branch: repo-level ignore patterns are never re-rooted (absolute targets stop honouring `src/*`)
     "m2_ignore_never_rerooted": [("src/linter_config/ignore.py",
